@@ -78,7 +78,9 @@ type scn struct {
 	spelling    string
 	signal      int // 0 content-length n, 1 content-length 0, 2 chunked, 3 neither
 	body        []byte
-	stream      int // 0 plain 1 zero-length reads first 2 first byte with EOF 3 error before first byte 4 error after first byte 5 empty 6 the first read fails once (a timeout), the data follows
+	handMade    bool // the MatchedRoute given to both entry points is filled through its exported fields (a custom Router)
+	mixedReg    bool // consumers are registered under a mixed-case spelling, over an earlier lower-case registration
+	stream      int  // 0 plain 1 zero-length reads first 2 first byte with EOF 3 error before first byte 4 error after first byte 5 empty 6 the first read fails once (a timeout), the data follows
 	// a sibling operation on the same path (other method, other consumes list) that is served first on the same Context
 	sibling     bool
 	sibMethod   string
@@ -146,6 +148,8 @@ func generate(t *kernel.Tape) *scn {
 	if s.signal == 2 {
 		s.stream = t.Weighted("stream", 3, 2, 2, 2, 2, 2, 2)
 	}
+	s.handMade = t.Bool(5, "hand-made-matched-route")
+	s.mixedReg = t.Bool(5, "mixed-case-registration")
 	if s.signal == 0 {
 		// a declared length says "there is a body" whatever the stream then does
 		s.stream = []int{0, 1, 3, 4, 6}[t.Weighted("stream-under-declared-length", 4, 1, 2, 1, 2)]
@@ -273,6 +277,12 @@ func (prop) Run(t *testing.T, tape *kernel.Tape, sc kernel.Scenario) *kernel.Res
 			inner = runtime.JSONConsumer()
 		}
 		c := &simapi.Consumer{W: world, Tag: mt, Inner: inner}
+		if s.mixedReg {
+			// an earlier registration under the plain spelling is replaced by one spelled differently: media types have no case
+			u.RegisterConsumer(mt, &simapi.Consumer{W: world, Tag: "replaced-registration:" + mt, Inner: inner})
+			u.RegisterConsumer(mixedCase(mt), c)
+			continue
+		}
 		u.RegisterConsumer(mt, c)
 	}
 	u.RegisterProducer("application/json", runtime.JSONProducer())
@@ -387,6 +397,9 @@ func (prop) Run(t *testing.T, tape *kernel.Tape, sc kernel.Scenario) *kernel.Res
 		res.Infra = "route not found"
 		return res
 	}
+	if s.handMade {
+		route1 = handMadeRoute(route1)
+	}
 	rb := &recBinder{}
 	if pm := kernel.Catch(func() {
 		err := ctx.BindValidRequest(rq1, route1, rb)
@@ -403,6 +416,9 @@ func (prop) Run(t *testing.T, tape *kernel.Tape, sc kernel.Scenario) *kernel.Res
 	*world.Slots[0] = simapi.Obs{AuthScopes: map[string][]string{}}
 	r2, _, _ := mkRequest("untyped")
 	route2, rq2, _ := ctx.RouteInfo(r2)
+	if s.handMade && route2 != nil {
+		route2 = handMadeRoute(route2)
+	}
 	if pm := kernel.Catch(func() {
 		_, _, err := ctx.BindAndValidate(rq2, route2)
 		o2.codes = codesOf(err)
@@ -454,6 +470,8 @@ func (prop) Run(t *testing.T, tape *kernel.Tape, sc kernel.Scenario) *kernel.Res
 				env.Violate("C06/consumer-ran-for-refused-type", name+":"+sig, "%s: refused type %q but consumer=%q binder/handler=%v", name, mt, o.consumer, o.handlerOK)
 			case adm && o.gate() == "415":
 				env.Violate("C06/admitted-type-refused", name+":"+sig, "%s: %q is admitted by consumes %q + default %q but was refused with 415 (%s)", name, mt, s.consumes, s.defConsumes, o.errText)
+			case adm && !s.registered[mt] && o.consumer != "" && strings.TrimPrefix(o.consumer, "selected:") != "":
+				env.Violate("C06/wrong-consumer", name+":no-consumer-registered:"+sig, "%s: %q is admitted but has no registered consumer, yet the body was handed to consumer %q", name, mt, o.consumer)
 			case adm && s.registered[mt] && o.gate() == "500" && admittedVia(s, mt) != "empty-list":
 				env.Violate("C06/admitted-type-no-consumer", name+":"+admittedVia(s, mt), "%s: %q is admitted (%s) and a consumer is registered for it, yet: %s", name, mt, admittedVia(s, mt), o.errText)
 			case adm && s.registered[mt] && o.gate() == "pass":
@@ -476,6 +494,28 @@ func (prop) Run(t *testing.T, tape *kernel.Tape, sc kernel.Scenario) *kernel.Res
 	res.FromEnv(env)
 	res.Sig = kernel.Mix(res.Sig, kernel.HashString(res.Summary))
 	return res
+}
+
+// handMadeRoute is what an application's own middleware.Router hands out: a MatchedRoute filled through its exported
+// fields only (whatever the default router keeps in unexported ones is not there).
+func handMadeRoute(r *middleware.MatchedRoute) *middleware.MatchedRoute {
+	m := &middleware.MatchedRoute{}
+	m.PathPattern, m.BasePath, m.Operation = r.PathPattern, r.BasePath, r.Operation
+	m.Consumes, m.Consumers, m.Produces, m.Producers = r.Consumes, r.Consumers, r.Produces, r.Producers
+	m.Parameters, m.Handler, m.Formats, m.Binder = r.Parameters, r.Handler, r.Formats, r.Binder
+	m.Authenticators, m.Authorizer = r.Authenticators, r.Authorizer
+	m.Params, m.Consumer, m.Producer, m.Authenticator = r.Params, r.Consumer, r.Producer, r.Authenticator
+	return m
+}
+
+func mixedCase(mt string) string {
+	b := []byte(mt)
+	for i := range b {
+		if i%2 == 0 && b[i] >= 'a' && b[i] <= 'z' {
+			b[i] -= 'a' - 'A'
+		}
+	}
+	return string(b)
 }
 
 func admittedVia(s *scn, mt string) string {
